@@ -645,16 +645,23 @@ func (c *client) register(rid uint32) chan *protocol.Packet {
 
 func (c *client) unregister(rid uint32, ch chan *protocol.Packet) {
 	c.recvsMu.Lock()
-	delete(c.recvs, rid)
+	// the id may have been taken over by a newer request after reconnect replaced the table
+	if c.recvs[rid] == ch {
+		delete(c.recvs, rid)
+	}
 	verifhook.Point("waiter:unregister", uint64(rid))
 	c.recvsMu.Unlock()
-
-	close(ch)
 }
 
 func (c *client) recv(ctx context.Context, rid uint32, ch chan *protocol.Packet) (res *protocol.Packet, err error) {
 	select {
-	case res = <-ch:
+	case p, ok := <-ch:
+		// closed by reconnect: the conn the request was written to is gone
+		if !ok {
+			err = errConnClosed
+			return
+		}
+		res = p
 	case <-ctx.Done():
 		err = errors.Errorf("wait for %d response timeout", rid)
 	}
